@@ -106,7 +106,7 @@ type ContractFile struct {
 }
 
 var clauseKw = map[string]bool{"func": true, "type": true, "spec": true, "lemma": true, "props": true, "arith": true,
-	"nopanic": true, "requires": true, "ensures": true, "modifies": true, "loop": true, "let": true, "trusted": true,
+	"nopanic": true, "requires": true, "ensures": true, "modifies": true, "loop": true, "let": true, "trusted": true, "assumes": true,
 	"invariant": true, "note": true, "package": true, "frame": true, "hyp": true, "concl": true, "params": true, "call": true, "immutable": true, "package_invariant": true}
 
 // logical lines: a //@ line whose first word is not a keyword continues the previous one.
@@ -354,7 +354,7 @@ func ParseContractFile(path, pkgPath string) (*ContractFile, error) {
 				m[d.Name] = d.E
 			}
 			cur.Lets = append(cur.Lets, letDef{strings.TrimSpace(rest[:as]), substExpr(e, m)})
-		case "requires", "ensures":
+		case "requires", "ensures", "assumes":
 			if cur == nil {
 				return nil, fail(l, "%s outside func", kw)
 			}
